@@ -4,6 +4,7 @@ import TinsModel.Dns.Update
 import TinsModel.Dns.Oracle
 import TinsModel.Dns.SoaLemmas
 import TinsModel.Dns.EditAny
+import TinsModel.Dns.GetSound
 /-
   Property C10 — DNS messages stay coherent under parsing, editing and name compression.
   Only the property theorems live here; the model is `TinsModel/Dns/Model.lean`, the specification
@@ -619,7 +620,7 @@ def sections_refine_compressed : Prop :=
     statement, evaluated by the kernel on the instance below and by the run-time oracle on every generated message);
     everything about the edits, the pointer rewriting and the re-parse is `sections_refine_wf`. -/
 theorem sections_refine_compressed_partial (hdr : Bytes) (S0 : Sections) (es : List Edit) {m0 : Msg}
-    (hp : parse (refCompress hdr S0) = .ok m0) (hwf : wfMsg m0 = true) (hobs : observe m0 = .ok (expected S0))
+    (_hp : parse (refCompress hdr S0) = .ok m0) (hwf : wfMsg m0 = true) (hobs : observe m0 = .ok (expected S0))
     (he : ∀ e ∈ es, e.legal = true) (hc : countSum m0 + es.length < 65536)
     (hsz : m0.recs.length + 12 + (es.map editSize).sum ≤ 16384) :
     ∃ m, runEdits m0 es = .ok m ∧ observe m = .ok (expected (es.foldl specEdit S0)) ∧ parse (serialize m) = .ok m := by
@@ -651,6 +652,56 @@ example : (parse (refCompress [0, 7, 0x81, 0x80] exS0) >>= fun m0 => .ok (wfMsg 
 /-- … and its conclusion, evaluated -/
 example : (parse (refCompress [0, 7, 0x81, 0x80] exS0) >>= fun m0 => runEdits m0 exEdits >>= observe) =
     .ok (expected (exEdits.foldl specEdit exS0)) := by decide +kernel
+
+/-! ### pointer loops and pointers outside the message, at the level of the getters -/
+
+/-- **loops_rejected / oob_pointer_rejected for every getter**: on a laid-out message, a stored name without an RFC
+    1035 resolution (a pointer loop, a pointer into the header or past the end, a label past the end, a reserved label
+    type) makes the getter of its section throw — it never returns (so never a wrong name) and never faults. -/
+theorem getters_reject_unresolvable {m : Msg} {L : Layout} (hlay : MsgAt m L) {σ : Site}
+    (h : ¬ ∃ n j, Resolves m.recs σ.s n j) :
+    (σ ∈ L.qs → ∃ x, queries m = .throw x) ∧ (σ ∈ recSites L.an → ∃ x, answers m = .throw x) ∧
+    (σ ∈ recSites L.au → ∃ x, authority m = .throw x) ∧ (σ ∈ recSites L.ad → ∃ x, additional m = .throw x) := by
+  obtain ⟨x, hx⟩ := composeName_rejects m.recs σ.s h
+  have hno : (composeName m.recs composeFuel σ.s [] 0 none).isOk ≠ true := by rw [hx]; intro hc; cases hc
+  have hinv : Inv m := hlay.order
+  refine ⟨fun hσ => ?_, fun hσ => ?_, fun hσ => ?_, fun hσ => ?_⟩
+  · cases hq : queries m with
+    | ok r => exact (hno (queries_ok_names hlay hq σ hσ)).elim
+    | throw e => exact ⟨e, rfl⟩
+    | fault s => have := queries_no_fault hlay; rw [hq] at this; cases this
+  · cases hq : answers m with
+    | ok r => exact (hno (answers_ok_names hlay hq σ hσ)).elim
+    | throw e => exact ⟨e, rfl⟩
+    | fault s => have := answers_sat hinv; rw [hq] at this; exact this.elim
+  · cases hq : authority m with
+    | ok r => exact (hno (authority_ok_names hlay hq σ hσ)).elim
+    | throw e => exact ⟨e, rfl⟩
+    | fault s => have := authority_sat hinv; rw [hq] at this; exact this.elim
+  · cases hq : additional m with
+    | ok r => exact (hno (additional_ok_names hlay hq σ hσ)).elim
+    | throw e => exact ⟨e, rfl⟩
+    | fault s => have := additional_sat hinv; rw [hq] at this; exact this.elim
+
+/-- **never a wrong name**: when a record getter returns on a laid-out message it read, at every name site of its
+    section, an RFC 1035 resolution of that site with at most 31 jumps; and what it returns is the view of the layout -/
+theorem getters_names_sound {m : Msg} {L : Layout} (hlay : MsgAt m L) {rs : List Resource} (h : answers m = .ok rs) :
+    ∀ σ ∈ recSites L.an, ∃ n j, Resolves m.recs σ.s n j ∧ j ≤ 31 ∧ nameAt m.recs σ.s = appendName [] n := by
+  intro σ hσ
+  have hok := answers_ok_names hlay h σ hσ
+  have hn := (hlay.an.site_mem hσ).2.2
+  have hc := composeName_at_site hn hok
+  obtain ⟨n, j, hr, hj, hrn, _⟩ := composeName_site hn hc
+  exact ⟨n, j, hr, hj, (Prod.mk.inj hrn).1⟩
+
+/-- non-vacuity: the authority record's owner is a pointer to itself; `authority()` throws, the other getters return -/
+def loopExample : Bytes :=
+  [0, 7, 0x81, 0x80, 0, 1, 0, 0, 0, 1, 0, 0,
+   2, 0x61, 0x62, 1, 0x63, 0, 0, 1, 0, 1,
+   0xc0, 22, 0, 1, 0, 1, 0, 0, 0, 9, 0, 4, 1, 2, 3, 4]
+
+example : (parse loopExample >>= fun m => .ok ((layoutB m).isSome, authority m, (answers m).isOk, (queries m).isOk)) =
+    .ok (true, .throw .pointerLoops, true, true) := by decide +kernel
 
 /-! ## 7. The run-time oracle judges the calls the theorems are about -/
 
